@@ -221,9 +221,28 @@ func (*G1) FromUncompressed(input []byte) (*PointG1, error) {
 	var xFp, yFp bls12381Impl.Fp
 	var t [2 * bls12381Impl.FpBytes]byte
 	pp := new(PointG1)
+	compressedFlag := uint64((input[0] >> 7) & 1)
 	infinityFlag := uint64((input[0] >> 6) & 1)
+	sortFlag := uint64((input[0] >> 5) & 1)
+
+	if compressedFlag == 1 {
+		return nil, curves.ErrFailed.WithMessage("compressed flag must not be set")
+	}
+	if sortFlag == 1 {
+		return nil, curves.ErrFailed.WithMessage("sort flag must not be set")
+	}
 
 	if infinityFlag == 1 {
+		// Check that all other bytes are zero when infinity flag is set
+		for i := range input {
+			mask := byte(0xff)
+			if i == 0 {
+				mask = 0x1f // Ignore the flag bits
+			}
+			if input[i]&mask != 0 {
+				return nil, curves.ErrFailed.WithMessage("non-zero coordinates with infinity flag set")
+			}
+		}
 		pp.V.SetZero()
 		return pp, nil
 	}
